@@ -925,10 +925,21 @@ def find_replace(
 
         template_replacement = core.format_template(replace, combined_match, **callables)
 
-        indentation = formatting.indentation_level(source[range_start:range_end])
+        # The replacement is inserted after the indentation of the first replaced line, so that
+        # indentation is what the following lines of the replacement need as well.
+        line_start = source.rfind("\n", 0, range_start) + 1
+        if source[line_start:range_start].strip():
+            indentation = formatting.indentation_level(source[range_start:range_end])
+        else:
+            indentation = range_start - line_start
 
         template_replacement = textwrap.dedent(template_replacement)
-        template_replacement = textwrap.indent(template_replacement, " " * indentation)
+        if indentation:
+            template_replacement = template_replacement.lstrip("\n")
+            first_line, *other_lines = template_replacement.splitlines(keepends=True)
+            template_replacement = first_line + textwrap.indent(
+                "".join(other_lines), " " * indentation
+            )
 
         item = [replacement_range, template_replacement]
         if transaction is not None:
